@@ -63,6 +63,10 @@ func c01Case(r *evid.Run, tier string, idx int, g *rng.R) {
 		o.MaxNodes = 300
 	}
 	d := adoc.Generate(g, o)
+	if o.NS > 0 && g.P(40) {
+		adoc.NSQuirks(g, d, true)
+		d.Finish()
+	}
 	w, err := newWorld(d)
 	if err != nil {
 		r.Violate("store-tree-mismatch", map[string]any{"case": idx, "what": err.Error(), "document": d.Dump()})
@@ -152,6 +156,32 @@ func c01Case(r *evid.Run, tier string, idx int, g *rng.R) {
 		if ok {
 			r.Sig(fmt.Sprintf("%s|%s|path|%s", shape, n.Kind, xast.String(p)), nontrivialSet(v, total))
 			r.Sample("path", 3, map[string]any{"case": idx, "context": n.Path(), "expr": xast.String(p), "result": showBrief(v), "document": d.Dump()})
+		}
+	}
+	// '//' (and its expansion) after a context set that mixes node kinds: unions of element,
+	// attribute and namespace-node selections in document order
+	for i := 0; i < npaths/2; i++ {
+		mk := func() xast.Path {
+			p := gen.AbsPath(1)
+			switch g.Intn(4) {
+			case 0:
+				p.Steps = append(p.Steps, xast.Step{Axis: "attribute", Test: xast.AnyT(), Abbrev: true})
+			case 1:
+				p.Steps = append(p.Steps, xast.S("namespace", xast.NodeT()))
+			}
+			return p
+		}
+		head := xast.Paren{X: xast.Binary{Op: "|", L: mk(), R: mk()}}
+		tail := rng.Pick(g, []xast.Step{
+			xast.S("self", xast.NodeT()), {Axis: "self", Test: xast.NodeT(), Abbrev: true}, {Axis: "parent", Test: xast.NodeT(), Abbrev: true},
+			xast.S("child", xast.NodeT()), xast.S("attribute", xast.AnyT()), xast.S("ancestor-or-self", xast.NodeT()), xast.S("following", xast.AnyT()), xast.S("namespace", xast.AnyT()),
+		})
+		abbr := xast.Path{Head: head, Steps: []xast.Step{xast.DS(), tail}}
+		full := xast.Path{Head: head, Steps: []xast.Step{xast.S("descendant-or-self", xast.NodeT()), tail}}
+		for _, e := range []xast.Path{abbr, full} {
+			if v, ok := w.check(r, "path/mixed-context-dslash", idx, d.Root, e, false); ok {
+				r.Sig(fmt.Sprintf("%s|mixed|%s", shape, xast.String(e)), nontrivialSet(v, total))
+			}
 		}
 	}
 	cfg2 := *cfg
